@@ -44,7 +44,9 @@ def gen(rng, tier):
     out = []
     for _ in range(n):
         r = rng.random()
-        if r < 0.15:
+        if r < 0.08:
+            out.append(cc.gen_many(rng))
+        elif r < 0.15:
             out.append(cc.gen_case(rng, kills=0.0, nested=0.0))
         elif r < 0.55:
             out.append(cc.gen_case(rng, kills=0.5, nested=0.3))
